@@ -4,6 +4,7 @@ package main
 
 import (
 	"fmt"
+	"go/constant"
 	"go/token"
 	"go/types"
 	"os"
@@ -789,6 +790,7 @@ func (ex *Exec) callKnown(fr *frame, st *State, cc *ssa.CallCommon, callee *ssa.
 			ex.assume(st, ex.p.Ge(r.(*Term), st.heapTop))
 			st.heapTop = ex.p.Add(r.(*Term), ex.p.Int(1))
 			ex.errFresh(st, r.(*Term))
+			ex.errWraps(st, cc, r.(*Term))
 		}
 		setRes(r)
 	case callee.Blocks != nil && ex.canInline(callee):
@@ -798,6 +800,133 @@ func (ex *Exec) callKnown(fr *frame, st *State, cc *ssa.CallCommon, callee *ssa.
 		ex.havocCall(st, pos, callee.String())
 		setRes(ex.freshResults(st, callee.Signature, callee.Name()))
 	}
+}
+
+// errWraps states what errors.Is answers for an error built by errors.New / fmt.Errorf with a constant format:
+// Is(r, s) holds exactly for s == r and, for each operand formatted with %w, for every s that operand answers to.
+// (An error built without %w wraps nothing.) Formats that are not constants, or whose operands cannot be read off
+// the variadic slice, leave the new error unconstrained as before.
+func (ex *Exec) errWraps(st *State, cc *ssa.CallCommon, r *Term) {
+	p := ex.p
+	var wrapped []*Term
+	if cc.StaticCallee().String() == "fmt.Errorf" {
+		if len(cc.Args) != 2 {
+			return
+		}
+		k, ok := cc.Args[0].(*ssa.Const)
+		if !ok || k.Value == nil || k.Value.Kind() != constant.String {
+			return
+		}
+		format := constant.StringVal(k.Value)
+		// verbs in order; %% is not a verb; flags/width are not used with %w in practice but are skipped anyway
+		var verbs []byte
+		for i := 0; i < len(format); i++ {
+			if format[i] != '%' {
+				continue
+			}
+			i++
+			for i < len(format) && strings.IndexByte("+-# 0123456789.[]*", format[i]) >= 0 {
+				if format[i] == '[' || format[i] == '*' {
+					return // explicit argument indexes: not modelled
+				}
+				i++
+			}
+			if i < len(format) && format[i] != '%' {
+				verbs = append(verbs, format[i])
+			}
+		}
+		nw := 0
+		for _, v := range verbs {
+			if v == 'w' {
+				nw++
+			}
+		}
+		if nw > 0 {
+			elems := variadicElems(cc.Args[1])
+			if elems == nil || len(elems) != len(verbs) {
+				return
+			}
+			for i, v := range verbs {
+				if v != 'w' {
+					continue
+				}
+				e := elems[i]
+				for {
+					if mi, ok := e.(*ssa.MakeInterface); ok {
+						e = mi.X
+						continue
+					}
+					if ci, ok := e.(*ssa.ChangeInterface); ok {
+						e = ci.X
+						continue
+					}
+					break
+				}
+				if !types.Identical(e.Type(), types.Universe.Lookup("error").Type()) {
+					return
+				}
+				t, ok := ex.val(st, e).(*Term)
+				if !ok || t.Sort.Kind != SInt {
+					return
+				}
+				wrapped = append(wrapped, t)
+			}
+		}
+	}
+	f := p.Func("isErr", []*Sort{IntSort, IntSort}, BoolSort)
+	sv := p.BoundVar("s!err", IntSort)
+	rhs := []*Term{p.Eq(sv, r)}
+	for _, w := range wrapped {
+		rhs = append(rhs, p.And(p.Not(p.Eq(w, p.Int(0))), p.Or(p.Eq(sv, w), p.App(f, w, sv))))
+	}
+	ex.facts = append(ex.facts, p.Forall([]*Term{sv}, p.Eq(p.App(f, r, sv), p.Or(rhs...)), []*Term{p.App(f, r, sv)}))
+	ex.assumptions["errors.Is on an error built by errors.New / fmt.Errorf follows the %w operands of the constant format (nothing else is wrapped)"] = true
+}
+
+// variadicElems reads the operands of a variadic call off the slice literal go/ssa builds for them
+// (new [n]T; &a[i]; store; slice a[:]); nil when the slice is not such a literal.
+func variadicElems(v ssa.Value) []ssa.Value {
+	if k, ok := v.(*ssa.Const); ok && k.Value == nil {
+		return []ssa.Value{}
+	}
+	sl, ok := v.(*ssa.Slice)
+	if !ok || sl.Low != nil || sl.High != nil {
+		return nil
+	}
+	al, ok := sl.X.(*ssa.Alloc)
+	if !ok {
+		return nil
+	}
+	arr, ok := al.Type().Underlying().(*types.Pointer).Elem().Underlying().(*types.Array)
+	if !ok {
+		return nil
+	}
+	out := make([]ssa.Value, arr.Len())
+	for _, ref := range *al.Referrers() {
+		ia, ok := ref.(*ssa.IndexAddr)
+		if !ok {
+			continue
+		}
+		k, ok := ia.Index.(*ssa.Const)
+		if !ok {
+			return nil
+		}
+		idx := int(k.Int64())
+		for _, r2 := range *ia.Referrers() {
+			if stv, ok := r2.(*ssa.Store); ok && stv.Addr == ia {
+				if idx < 0 || idx >= len(out) || out[idx] != nil {
+					return nil
+				}
+				out[idx] = stv.Val
+			}
+		}
+	}
+	for _, e := range out {
+		if e == nil {
+			return nil
+		}
+	}
+	return out
 }
 
 // errFresh: a freshly created error is none of the sentinels (unless wrapping, which isErr handles separately).
